@@ -360,6 +360,16 @@ func two() {
 // tail doc p
 var tail = 1
 `},
+	{name: "plus-side-comments-on-comment-free-file", marker: "Old",
+		patch: "@@\n@@\n-var Old = 1\n+var Old = 2 // two\n\n@@\n@@\n-type Old struct{}\n+type Old struct {\n+\t// B doc\n+\tB int // B trailing\n+}\n",
+		src: `package p
+
+var Old = 1
+
+type Old struct{}
+
+func keep() {}
+`},
 	{name: "two-changes", marker: "old", fixed: "gone",
 		patch: "@@\nvar x expression\n@@\n-old(x)\n+mid(x)\n\n@@\n@@\n-func gone() {}\n+var gone = func() {}\n",
 		src: `package p
